@@ -17,7 +17,7 @@ from gen import c03_productions, relib
 from harness import c03_content as C
 from harness import c03_sheets as S
 
-PATTERN_NAMES = ['STRING', 'URI', 'IDENT', 'COMMENT', 'unicodesub', 'cleanstring', 'simpleescapes', 'forbidden_in_uri']
+PATTERN_NAMES = ['STRING', 'URI', 'IDENT', 'COMMENT', 'unicodesub', 'stringsub', 'simpleescapes', 'forbidden_in_uri']
 
 
 def quiet():
@@ -64,6 +64,15 @@ class C03(Check):
     def translate(self, ctx):
         files, pats, asts = c03_productions.generate(ctx.repo)
         self._pats, self._asts = pats, asts
+        # the driver links the C05 tokenizer model (Model/Tok.lean) for the model-to-model cross-check; its tables
+        # have to describe the same tree
+        from gen import c05_productions
+        _d, text = c05_productions.build(ctx.repo)
+        rel = 'CssVerif/Gen/C05Productions.lean'
+        path = os.path.join(ctx.lean, rel)
+        old = open(path, encoding='utf-8').read() if os.path.exists(path) else ''
+        body = lambda t: t.split('-/', 1)[-1]          # the header only carries source hashes
+        files[rel] = old if old and body(old) == body(text) else text
         return files
 
     # ------------------------------------------------------------------------------------------
@@ -97,7 +106,7 @@ class C03(Check):
         tk = tokenize2.Tokenizer()
         d = {name: m.__self__ for name, m in tk.tokenmatches}
         d['unicodesub'] = tokenize2.Tokenizer.unicodesub.__self__
-        d['cleanstring'] = tokenize2.Tokenizer.cleanstring.__self__
+        d['stringsub'] = tokenize2.Tokenizer.stringsub.__self__
         d['simpleescapes'] = helper._simpleescapes.__self__
         d['forbidden_in_uri'] = helper._match_forbidden_in_uri.__self__
         return d
@@ -177,13 +186,16 @@ class C03(Check):
                 return enc(toks[0][1])
             lines.append('tokval %s %s' % (kind, enc(found)))
             cases.append(('tokval', found, f, 'tokval:' + expect_type))
+            if kind in ('s', 'o'):
+                # model-to-model: this check's hand matcher vs the C05 tokenizer model (regex-driven) on the same text
+                lines.append('tokc05 %s %s' % (kind, enc(found)))
+                cases.append(('tokc05', found, lambda _: 'SAME', 'tokc05:' + expect_type))
 
         for _ in range(ctx.n(2500, 50000)):
             s = C.raw_text(rng, 8)
             add('string', s, lambda x: enc(helper.string(x)), 'string')
             add('uri', s, lambda x: enc(helper.uri(x)), 'uri')
             add('forb', s, lambda x: '1' if helper._match_forbidden_in_uri(x) else '0', 'forb')
-            add('clean', s, lambda x: enc(tokenize2.Tokenizer.cleanstring('', x)), 'clean')
 
             def sv(x):
                 try:
@@ -209,16 +221,16 @@ class C03(Check):
             add('uritokenvalue', u, utv, 'uritokenvalue')
             if lower_ok(s):
                 add('normalize', s, lambda x: enc(helper.normalize(x)), 'normalize')
-            # unicodesub on (nearly) arbitrary text: inside a comment
+            # comments are kept verbatim
             if '*/' not in s and not s.endswith('*') and not s.startswith('/'):
-                tokval('o', '/*' + s + '*/', 'COMMENT')
+                tokval('r', '/*' + s + '*/', 'COMMENT')
         for _ in range(ctx.n(2500, 50000)):
             q, body = C.string_token(rng, 7)
             tokval('s', q + body + q, 'STRING')
             tokval('o', C.ident_text(rng, 5), 'IDENT')
-            tokval('o', 'url(' + C.url_unquoted_body(rng, 6) + ')', 'URI')
+            tokval('s', 'url(' + C.url_unquoted_body(rng, 6) + ')', 'URI')
             q2, body2 = C.string_token(rng, 5)
-            tokval('o', 'url(' + rng.choice(['', ' ']) + q2 + body2 + q2 + rng.choice(['', ' ']) + ')', 'URI')
+            tokval('s', 'url(' + rng.choice(['', ' ']) + q2 + body2 + q2 + rng.choice(['', ' ']) + ')', 'URI')
         out = ctx.driver(lines) if ctx.model_ok else [None] * len(lines)
         for (op, arg, f, kind), m in zip(cases, out):
             got = f(arg)
@@ -320,8 +332,8 @@ class C03(Check):
                     v = helper.stringvalue(toks[0][1])
                     cls = C.str_class(v)
                     ctx.case(key=('image', t), nontrivial='\\' in body, kind='image:' + (cls or 'safe'))
-                    if cls is not None and not (C.region_escaped_dquote(body, q) or C.region_clean_after_unescape(body)):
-                        ctx.disagree('the two documented source regions cover every STRING token stored with an unsafe value',
+                    if cls is not None and not (cls == 'dq' and C.region_escaped_dquote(body, q)):
+                        ctx.disagree('the documented source region (escaped double quote) covers every STRING token stored with an unsafe value',
                                      t, v, cls)
                     if '\\' in body:
                         lines.append('strD ' + enc(t))
@@ -403,7 +415,7 @@ class C03(Check):
         for how, raw in raws:
             cls = C.uri_class(raw) if how == 'uri' else (C.uri_class(raw) or C.str_class(raw))
             if cls:
-                regs.add(S.kf_for_class(cls, 'setter'))
+                regs |= {x for x in [S.kf_for_class(cls, 'setter')] if x}
             if S.bs_before_unencodable(raw, encoding):
                 regs.add('C03-backslash-before-unencodable')
         return regs
@@ -411,11 +423,6 @@ class C03(Check):
     def dom_regions(self, cssutils, sheet):
         """regions that are a property of the edited DOM rather than of a token"""
         regs = set()
-        kinds = [r.type for r in sheet.cssRules]
-        for i, k in enumerate(kinds):
-            if k == S.RULE.VARIABLES_RULE and any(x in (S.RULE.IMPORT_RULE, S.RULE.NAMESPACE_RULE) for x in kinds[i + 1:]):
-                # sheet.add() puts a @variables rule directly behind @charset; the parser then refuses what follows
-                regs.add('C03-variables-before-imports')
         has_default = any(r.type == S.RULE.NAMESPACE_RULE and not r.prefix for r in sheet.cssRules)
 
         def walk(rules):
@@ -529,7 +536,7 @@ class C03(Check):
             ('unknown', '@foo %s;', None, None, None, None, None),
         ],
         'comment': [
-            ('top', '%s a{b:c}', lambda sh: sh.cssRules[0].cssText, 'tokval o', None, None, None),
+            ('top', '%s a{b:c}', lambda sh: sh.cssRules[0].cssText, 'tokval r', None, None, None),
             ('block', 'a{%s b:c}', None, None, None, None, None),
             ('blockend', 'a{b:c;%s}', None, None, None, None, None),
             ('value', 'a{b:c %s d}', None, None, None, None, None),
